@@ -118,7 +118,7 @@ def openRespN (p : Proxy) (ck : CK) : Nat := if ahas p.openResp ck then 1 else 0
 def keysOf {β} (l : List (CK × β)) : List CK := l.map (·.1)
 
 /-- Number of entries for `(child, key)`, whatever the response. -/
-def cntK {β} (l : List (CK × β)) (ck : CK) : Nat := (keysOf l).count ck
+def cntK {κ β} [DecidableEq κ] (l : List (κ × β)) (k : κ) : Nat := (l.map (·.1)).count k
 
 /-- Executable form of the exactly-once accounting, for one `(child, key)`. -/
 def exactlyOnceAt (s : Sys) (ck : CK) : Bool :=
